@@ -231,4 +231,49 @@ mod verif_kani_token {
         let s = [RANK_CH[a as usize], RANK_CH[a as usize], b':', b'1', b'.', b'5'];
         assert!(HandRangeToken::from_str(unsafe { std::str::from_utf8_unchecked(&s) }).is_err());
     }
+
+    // ---- C17 / C06 (text of a token): Display writes exactly the notation that the tok_meaning_* harnesses parse back
+    //      to the same value (weight 1 is omitted); complete over all ranks / suits / shapes ----
+    #[kani::proof]
+    #[kani::unwind(9)]
+    fn tok_display_pockets() {
+        let (a, b) = (any_rank(), any_rank());
+        let t = HandRangeToken::new(HandRangeTokenKind::SingleRankPair(RankPair::Pocket(rank_of(a))), 1.0);
+        assert!(t.to_string().as_bytes() == &[RANK_CH[a as usize], RANK_CH[a as usize]][..]);
+        let t = HandRangeToken::new(HandRangeTokenKind::BottomClosedRankPairRange(RankPair::Pocket(rank_of(a))), 1.0);
+        assert!(t.to_string().as_bytes() == &[RANK_CH[a as usize], RANK_CH[a as usize], b'+'][..]);
+        kani::assume(a <= b);
+        kani::cover!(a < b);
+        let t = HandRangeToken::new(HandRangeTokenKind::DoubleClosedRankPairRange(RankPair::Pocket(rank_of(a)), rank_of(b)), 1.0);
+        assert!(t.to_string().as_bytes() == &[RANK_CH[a as usize], RANK_CH[a as usize], b'-', RANK_CH[b as usize], RANK_CH[b as usize]][..]);
+    }
+
+    #[kani::proof]
+    #[kani::unwind(11)]
+    fn tok_display_rank_pairs() {
+        let (h, k, e) = (any_rank(), any_rank(), any_rank());
+        let suited: bool = kani::any();
+        let so = if suited { b's' } else { b'o' };
+        let mk = |x: u8, y: u8| if suited { RankPair::Suited(rank_of(x), rank_of(y)) } else { RankPair::Ofsuit(rank_of(x), rank_of(y)) };
+        kani::assume(h < k);
+        kani::cover!(suited && k < e);
+        let (hc, kc, ec) = (RANK_CH[h as usize], RANK_CH[k as usize], RANK_CH[e as usize]);
+        let t = HandRangeToken::new(HandRangeTokenKind::SingleRankPair(mk(h, k)), 1.0);
+        assert!(t.to_string().as_bytes() == &[hc, kc, so][..]);
+        let t = HandRangeToken::new(HandRangeTokenKind::BottomClosedRankPairRange(mk(h, k)), 1.0);
+        assert!(t.to_string().as_bytes() == &[hc, kc, so, b'+'][..]);
+        kani::assume(k < e);
+        let t = HandRangeToken::new(HandRangeTokenKind::DoubleClosedRankPairRange(mk(h, k), rank_of(e)), 1.0);
+        assert!(t.to_string().as_bytes() == &[hc, kc, so, b'-', hc, ec, so][..]);
+    }
+
+    #[kani::proof]
+    #[kani::unwind(9)]
+    fn tok_display_card_pair() {
+        let (a, b, s1, s2) = (any_rank(), any_rank(), any_suit(), any_suit());
+        kani::assume(a < b || (a == b && s1 < s2));
+        kani::cover!(a == b);
+        let t = HandRangeToken::new(HandRangeTokenKind::SingleCardPair(CardPair::new(Card::new(rank_of(a), suit_of(s1)), Card::new(rank_of(b), suit_of(s2)))), 1.0);
+        assert!(t.to_string().as_bytes() == &[RANK_CH[a as usize], SUIT_CH[s1 as usize], RANK_CH[b as usize], SUIT_CH[s2 as usize]][..]);
+    }
 }
